@@ -95,6 +95,11 @@ func (h Handler) handleTxCursor(
 	responsePair.CursorId = cur.Cursor
 
 	switch cur.Op {
+	case gen.Op_FIRST:
+		if it.First() {
+			responsePair.K = it.Key()
+			responsePair.V, err = it.Value()
+		}
 	case gen.Op_SEEK:
 		key := slices.Concat(cur.BucketName, cur.K)
 		if it.Seek(key) {
